@@ -61,6 +61,10 @@ def _sample_sources(fn, expr, channels, depth=0, seen=None):
 
 
 def run(ctx):
+  from sa import pitfalls
+  pitfalls.apply(ctx, 'PITFALL', [fi_ for q_, fi_ in sorted(ctx.P.module('audio_io').functions.items())], ['neg-zero-slice'], {
+      'neg-zero-slice': 'when nothing is to be trimmed the slice x[:-0] is x[:0], the empty array: a duration that is a whole number of copies (or a crop that removes '
+                        'nothing) returns no samples at all'})
   ms_ = ctx.func('audio_io:make_stereo')
   rz_ = [c for c in U.calls_in(ms_.node) if (dotted(c.func) or '').endswith('.resize') or (isinstance(c.func, ast.Attribute) and c.func.attr in ('resize', 'tile'))]
   if rz_:
